@@ -67,6 +67,12 @@ func ClientHandshake(c net.Conn, cryptoHandshake bool, infoHash hash.Hash, myid 
 
 	hshk := handshake(infoHash, myid)
 
+	if !cryptoHandshake && cryptoOptions != nil &&
+		cryptoOptions.ForceEncryption {
+		err = errors.New("plaintext connection forbidden")
+		return
+	}
+
 	var buf []byte
 	if cryptoHandshake {
 		conn, buf, err = crypto.ClientHandshake(
@@ -159,6 +165,10 @@ func ServerHandshake(c net.Conn, hashes []hash.HashPair, cryptoOptions *crypto.O
 	ok := checkHeader(buf)
 	if ok && cryptoOptions.ForceCryptoHandshake {
 		err = errors.New("plaintext handshake forbidden")
+		return
+	}
+	if ok && cryptoOptions.ForceEncryption {
+		err = errors.New("plaintext connection forbidden")
 		return
 	}
 
